@@ -3,6 +3,12 @@
 package checks
 
 func init() {
+	ChildRuns["c01core"] = C01
+	ChildRuns["c02core"] = C02
+	ChildRuns["c03core"] = C03
+	ChildRuns["c04core"] = C04
+	ChildRuns["c06core"] = C06
+	ChildRuns["c17core"] = C17
 	Registry["C01"] = C01
 	Registry["C02"] = C02
 	Registry["C03"] = C03
